@@ -81,6 +81,40 @@ def widen(ctx):
     run(ctx)
 
 
+ENC_SCHEMA = ('<xsd:import namespace="http://schemas.xmlsoap.org/soap/encoding/"/>'
+              '<xsd:complexType name="P"><xsd:sequence><xsd:element name="name" type="xsd:string"/></xsd:sequence>'
+              '</xsd:complexType><xsd:complexType name="Q"><xsd:complexContent><xsd:extension base="x:P"><xsd:sequence>'
+              '<xsd:element name="extra" type="xsd:boolean"/></xsd:sequence></xsd:extension></xsd:complexContent>'
+              '</xsd:complexType><xsd:complexType name="ArrayOfP"><xsd:complexContent><xsd:restriction '
+              'base="soapenc:Array"><xsd:attribute ref="soapenc:arrayType" wsdl:arrayType="x:P[]"/></xsd:restriction>'
+              '</xsd:complexContent></xsd:complexType><xsd:complexType name="ArrayOfBool"><xsd:complexContent>'
+              '<xsd:restriction base="soapenc:Array"><xsd:attribute ref="soapenc:arrayType" '
+              'wsdl:arrayType="xsd:boolean[]"/></xsd:restriction></xsd:complexContent></xsd:complexType>')
+
+
+def witness(ctx, k):
+    kind = (k.get("witness") or {}).get("kind")
+    if kind not in ("derived-in-array", "array-item-lexical"):
+        return None
+    w = wsdlkit.wsdl_doc(ENC_SCHEMA, style="rpc", use="encoded",
+                         in_parts=[("ps", "type", "x:ArrayOfP"), ("bs", "type", "x:ArrayOfBool")],
+                         out_parts=[("return", "type", "xsd:string")])
+    c = wsdlkit.client(w, nosend=True)
+    q = c.factory.create("{%s}Q" % wsdlkit.TNS)
+    q.name, q.extra = "q", True
+    try:
+        env = wsdlkit.envelope_bytes(c.service.f([{"name": "z"}, q], [True, False]))
+    except Exception:
+        return True
+    root, kids = K.body_children(env)
+    ps, bs = kids[0]["children"]
+    if kind == "derived-in-array":
+        item = ps["children"][1]
+        t = xmlread.resolve_qname(item, item["attrs"][(xmlread.XSI, "type")])
+        return tuple(t) != (wsdlkit.TNS, "Q") or [c_["name"][1] for c_ in item["children"]] != ["name", "extra"]
+    return [i["text"] for i in bs["children"]] != ["true", "false"]
+
+
 def replay(ctx, payload):
     f = payload.get("failure") or (payload.get("disagreement") or {})
     m = f.get("input") or {}
